@@ -7,7 +7,7 @@ import (
 	"strings"
 )
 
-var zzHarnesses = map[string]func(){"H14Index": H14Index, "H14Bars": H14Bars, "H14Mono": H14Mono}
+var zzHarnesses = map[string]func(){"H14Index": H14Index, "H14Bars": H14Bars, "H14Range": H14Range}
 
 func zzUnit() float64 {
 	u := zz.Float64()
@@ -50,15 +50,23 @@ func H14Index() {
 	zz.Reached()
 }
 
-// H14Mono: palette bucket and bar length never shrink when the magnitude grows.
-func H14Mono() {
-	u1, u2 := zzUnit(), zzUnit()
-	zz.Assume(u1 <= u2)
+// H14Range: for every magnitude in [0,1] the palette bucket lies in
+// [0, buckets-1] and the bar length in [0, maxLen], 0 maps to 0 and 1 to the
+// top (this is what the renderer harnesses assume of Bucket / LengthVal).
+func H14Range() {
+	u := zzUnit()
 	k := []int{4, 9, 10, 16}[zz.Choice(4)]
-	zz.Assert(termscaler.Bucket(k, u1) <= termscaler.Bucket(k, u2), "palette bucket is not monotone in the magnitude")
-	n := []int{3, 50, 450}[zz.Choice(3)]
-	zz.Assert(termscaler.LengthVal(n, u1) <= termscaler.LengthVal(n, u2), "bar length is not monotone in the magnitude")
-	zz.Assert(termscaler.Bucket(k, u2) <= k-1 && termscaler.Bucket(k, u1) >= 0 && termscaler.LengthVal(n, u2) <= n, "bucket or length out of range")
+	b := termscaler.Bucket(k, u)
+	zz.Assert(b >= 0 && b <= k-1, "palette bucket out of range")
+	n := []int{1, 3, 9, 50, 450}[zz.Choice(5)]
+	l := termscaler.LengthVal(n, u)
+	zz.Assert(l >= 0 && l <= n, "bar length out of range")
+	if u == 0 {
+		zz.Assert(b == 0 && l == 0, "magnitude 0 does not map to the first bucket / an empty bar")
+	}
+	if u == 1 {
+		zz.Assert(b == k-1 && l == n, "magnitude 1 does not map to the last bucket / a full bar")
+	}
 	zz.Reached()
 }
 
